@@ -1,14 +1,19 @@
 //! Native stand-in for C34 on the compiled code (not a deductive result): a small object (text, numbers,
 //! odd-length bytes, a nested sequence with an item, encapsulated pixel data with two fragments) is
-//!  (1) written as a data set in Implicit VR LE, Explicit VR LE and Explicit VR BE, and as a complete file,
+//!  (1) written as a data set in Implicit VR LE, Explicit VR LE, Explicit VR BE and Deflated Explicit VR LE, and as a complete file
+//!      (also a deflated one),
 //!      to a sink that FAILS (I/O error), or ACCEPTS ZERO BYTES, once byte offset k is reached (from then on, or once only) — for every
 //!      k from 0 to the length of the complete output: the operation must return an error, never Ok and
 //!      never a panic; with a sink that accepts ONE BYTE PER CALL the output must be complete and identical;
-//!  (2) read back (data set in the three transfer syntaxes, and the complete file) from a source that
-//!      reports an I/O error once offset k is reached — for every k below the length: an error, never Ok
-//!      with a partial object and never a panic;
+//!  (2) read back (data set in the transfer syntaxes, and the complete files) from a source that reports an I/O error (of kind
+//!      Other, ConnectionReset, TimedOut) once offset k is reached — for every k below the length: an error, never Ok with a
+//!      partial object and never a panic; and from a source that ENDS at offset k (no more bytes, or an error of kind
+//!      UnexpectedEof): an error at every k except where a top-level element, or an item header of top-level encapsulated pixel
+//!      data, would start (found by an independent structural walk of the written stream) — the only places where the reader is
+//!      documented to take the end of the source for the end of the data set;
 //!  (3) a stream of three PDUs received through `read_pdu_from_wire` from a transport that fails at offset k, for every k and
-//!      three segment sizes: the PDUs that lie completely before the failure are received, then an error.
+//!      three segment sizes: the PDUs that lie completely before the failure are received, then an error;
+//!  (4) PDUs of every type sent with `write_pdu` to a sink failing at offset k, for every k and every failure mode: an error.
 use dicom_core::value::{DataSetSequence, PixelFragmentSequence, Value};
 use dicom_core::{dicom_value, DataElement, Length, PrimitiveValue, Tag, VR};
 use dicom_object::{FileMetaTableBuilder, InMemDicomObject};
@@ -40,10 +45,21 @@ impl Write for Sink {
     fn flush(&mut self) -> std::io::Result<()> { Ok(()) }
 }
 
-struct Source<'a> { data: &'a [u8], pos: usize, fail_at: usize }
+#[derive(Clone, Copy, PartialEq, Debug)]
+enum Fail { Other, ConnectionReset, TimedOut, EofError, Truncated }
+
+struct Source<'a> { data: &'a [u8], pos: usize, fail_at: usize, fail: Fail }
 impl Read for Source<'_> {
     fn read(&mut self, buf: &mut [u8]) -> std::io::Result<usize> {
-        if self.pos >= self.fail_at { return Err(std::io::Error::new(std::io::ErrorKind::Other, "source failure")); }
+        if self.pos >= self.fail_at {
+            return match self.fail {
+                Fail::Other => Err(std::io::Error::new(std::io::ErrorKind::Other, "source failure")),
+                Fail::ConnectionReset => Err(std::io::Error::new(std::io::ErrorKind::ConnectionReset, "source failure")),
+                Fail::TimedOut => Err(std::io::Error::new(std::io::ErrorKind::TimedOut, "source failure")),
+                Fail::EofError => Err(std::io::Error::new(std::io::ErrorKind::UnexpectedEof, "source failure")),
+                Fail::Truncated => Ok(0),
+            };
+        }
         let n = buf.len().min(self.fail_at - self.pos).min(self.data.len() - self.pos);
         buf[..n].copy_from_slice(&self.data[self.pos..self.pos + n]);
         self.pos += n;
@@ -51,11 +67,54 @@ impl Read for Source<'_> {
     }
 }
 
+/// Offsets at which the TOP-LEVEL elements of an uncompressed data set start, and at which the item headers (and the sequence delimiter) of
+/// top-level encapsulated pixel data start, found by an independent structural walk (element and item headers only). Only there may a
+/// source that simply ENDS be taken for the end of the data set (read.rs documents both: "if `UnexpectedEof` was reached while trying to
+/// read an element tag" / "while inside a PixelData Sequence, then we assume that the end of a DICOM object was reached gracefully");
+/// `None` if the walk does not come out even.
+fn top_level_starts(d: &[u8], implicit: bool, be: bool) -> Option<(Vec<usize>, Vec<usize>)> {
+    let u16a = |p: usize| -> Option<u16> { let b = d.get(p..p + 2)?; Some(if be { u16::from_be_bytes([b[0], b[1]]) } else { u16::from_le_bytes([b[0], b[1]]) }) };
+    let u32a = |p: usize| -> Option<u32> { let b = d.get(p..p + 4)?; Some(if be { u32::from_be_bytes([b[0], b[1], b[2], b[3]]) } else { u32::from_le_bytes([b[0], b[1], b[2], b[3]]) }) };
+    // open containers: (kind, end) with kind 0 = sequence, 1 = item, 2 = encapsulated pixel data; end = usize::MAX when delimited
+    let mut stack: Vec<(u8, usize)> = Vec::new();
+    let (mut starts, mut item_starts, mut pos) = (Vec::new(), Vec::new(), 0usize);
+    while pos < d.len() {
+        while let Some(&(_, end)) = stack.last() { if end != usize::MAX && pos >= end { if pos != end { return None; } stack.pop(); } else { break; } }
+        if pos >= d.len() { break; }
+        let (g, e) = (u16a(pos)?, u16a(pos + 2)?);
+        if g == 0xFFFE {
+            let len = u32a(pos + 4)?;
+            match e {
+                0xE000 if stack.last().map(|x| x.0) == Some(2) => { if stack.len() == 1 { item_starts.push(pos); } pos += 8 + len as usize; }
+                0xE000 => { stack.push((1, if len == u32::MAX { usize::MAX } else { pos + 8 + len as usize })); pos += 8; }
+                0xE00D | 0xE0DD => { let (kind, end) = stack.pop()?; if end != usize::MAX { return None; } if kind == 2 && stack.is_empty() { item_starts.push(pos); } pos += 8; }
+                _ => return None,
+            }
+            continue;
+        }
+        if stack.is_empty() { starts.push(pos); }
+        let (is_sq, len, hdr) = if implicit {
+            let len = u32a(pos + 4)?;
+            (len == u32::MAX && (g, e) != (0x7FE0, 0x0010) || (g, e) == (0x0008, 0x1115), len, 8)
+        } else {
+            let vr = d.get(pos + 4..pos + 6)?;
+            let short = [&b"AE"[..], b"AS", b"AT", b"CS", b"DA", b"DS", b"DT", b"FL", b"FD", b"IS", b"LO", b"LT", b"PN", b"SH", b"SL", b"SS", b"ST", b"TM", b"UI", b"UL", b"US"].contains(&vr);
+            if short { (false, u16a(pos + 6)? as u32, 8) } else { (vr == b"SQ", u32a(pos + 8)?, 12) }
+        };
+        pos += hdr;
+        if is_sq { stack.push((0, if len == u32::MAX { usize::MAX } else { pos + len as usize })); }
+        else if len == u32::MAX { stack.push((2, usize::MAX)); }
+        else { pos += len as usize; }
+    }
+    while let Some(&(_, end)) = stack.last() { if end != usize::MAX && pos == end { stack.pop(); } else { break; } }
+    if pos == d.len() && stack.is_empty() { Some((starts, item_starts)) } else { None }
+}
+
 struct Tally { cases: u64, bad: u64 }
 impl Tally {
     fn fail(&mut self, what: String) {
         self.bad += 1;
-        if self.bad <= 8 { println!("WITNESS unit=C34.io_failures {}", what); }
+        if self.bad <= 8 || std::env::var("C34_ALL").is_ok() { println!("WITNESS unit=C34.io_failures {}", what); }
     }
 }
 
@@ -122,16 +181,36 @@ fn sweep_write(t: &mut Tally, what: &str, write: &dyn Fn(&mut Sink) -> Result<()
     Some(reference)
 }
 
-fn sweep_read(t: &mut Tally, what: &str, data: &[u8], read: &dyn Fn(Source) -> Result<(), String>) {
+/// `layout`: (offset at which the data set starts, implicit VR, big endian) for uncompressed streams; None where the structure cannot be walked
+fn sweep_read(t: &mut Tally, what: &str, data: &[u8], layout: Option<(usize, bool, bool)>, read: &dyn Fn(Source) -> Result<(), String>) {
     t.cases += 1;
-    if let Err(e) = read(Source { data, pos: 0, fail_at: usize::MAX }) { return t.fail(format!("{}: reading the complete stream failed: {}", what, e)); }
-    for k in 0..data.len() {
-        t.cases += 1;
-        let r = std::panic::catch_unwind(std::panic::AssertUnwindSafe(|| read(Source { data, pos: 0, fail_at: k })));
-        match r {
-            Ok(Err(_)) => {}
-            Ok(Ok(())) => t.fail(format!("{}: the source failed at byte offset {} of {}, yet reading reported success", what, k, data.len())),
-            Err(_) => t.fail(format!("{}: panic when the source failed at byte offset {}", what, k)),
+    if let Err(e) = read(Source { data, pos: 0, fail_at: usize::MAX, fail: Fail::Other }) { return t.fail(format!("{}: reading the complete stream failed: {}", what, e)); }
+    // a source that ENDS (Ok(0), or an error of kind UnexpectedEof) may be taken for the end of the data set only where a top-level element
+    // would start (the reader asks for the 4 bytes of the next tag there) or where an item header of top-level encapsulated pixel data
+    // would start (files without the closing delimiter exist; the reader documents this leniency); anywhere else — inside an element
+    // header after the tag, inside a value or a fragment, inside a sequence, in the preamble or the file meta group — the data set is
+    // incomplete and reading must fail
+    let may_end: Option<Vec<bool>> = layout.and_then(|(start, implicit, be)| {
+        let (starts, item_starts) = top_level_starts(&data[start..], implicit, be)?;
+        let mut ok = vec![false; data.len()];
+        for s in starts { for k in s..(s + 4).min(data.len() - start) { ok[start + k] = true; } }
+        for s in item_starts { for k in s..(s + 8).min(data.len() - start) { ok[start + k] = true; } }
+        Some(ok)
+    });
+    if layout.is_some() && may_end.is_none() { println!("NOTE unit=C34.io_failures {}: the structural walk of the written stream did not come out even; ending sources not swept", what); }
+    for fail in [Fail::Other, Fail::ConnectionReset, Fail::TimedOut, Fail::EofError, Fail::Truncated] {
+        let ending = matches!(fail, Fail::EofError | Fail::Truncated);
+        if ending && may_end.is_none() { continue; }
+        for k in 0..data.len() {
+            if ending && may_end.as_ref().map(|m| m[k]).unwrap_or(false) { continue; }
+            t.cases += 1;
+            let r = std::panic::catch_unwind(std::panic::AssertUnwindSafe(|| read(Source { data, pos: 0, fail_at: k, fail })));
+            let how = match fail { Fail::Truncated => "ended (no more bytes)".to_string(), f => format!("failed with an error of kind {:?}", f) };
+            match r {
+                Ok(Err(_)) => {}
+                Ok(Ok(())) => t.fail(format!("{}: the source {} at byte offset {} of {}, yet reading reported success", what, how, k, data.len())),
+                Err(_) => t.fail(format!("{}: panic when the source {} at byte offset {}", what, how, k)),
+            }
         }
     }
 }
@@ -142,6 +221,7 @@ fn main() {
         (entries::IMPLICIT_VR_LITTLE_ENDIAN.erased(), "Implicit VR LE"),
         (entries::EXPLICIT_VR_LITTLE_ENDIAN.erased(), "Explicit VR LE"),
         (entries::EXPLICIT_VR_BIG_ENDIAN.erased(), "Explicit VR BE"),
+        (entries::DEFLATED_EXPLICIT_VR_LITTLE_ENDIAN.erased(), "Deflated Explicit VR LE"),
     ];
     for with_pixels in [false, true] {
         let obj = object(with_pixels);
@@ -149,14 +229,27 @@ fn main() {
             let what = format!("data set ({}) in {}", if with_pixels { "encapsulated pixel data" } else { "native pixel data" }, name);
             let bytes = sweep_write(&mut t, &format!("writing a {}", what), &|s: &mut Sink| obj.write_dataset_with_ts(s, ts).map_err(|e| e.to_string()));
             if let Some(bytes) = bytes {
-                sweep_read(&mut t, &format!("reading a {}", what), &bytes, &|src: Source| InMemDicomObject::read_dataset_with_ts(src, ts).map(|_| ()).map_err(|e| e.to_string()));
+                let layout = match *name { "Implicit VR LE" => Some((0, true, false)), "Explicit VR LE" => Some((0, false, false)), "Explicit VR BE" => Some((0, false, true)), _ => None };
+                sweep_read(&mut t, &format!("reading a {}", what), &bytes, layout, &|src: Source| InMemDicomObject::read_dataset_with_ts(src, ts).map(|_| ()).map_err(|e| e.to_string()));
             }
         }
         let file = obj.clone().with_meta(FileMetaTableBuilder::new().transfer_syntax(if with_pixels { "1.2.840.10008.1.2.4.50" } else { "1.2.840.10008.1.2.1" })).expect("meta");
         let what = format!("complete file ({})", if with_pixels { "encapsulated pixel data" } else { "native pixel data" });
         let bytes = sweep_write(&mut t, &format!("writing a {}", what), &|s: &mut Sink| file.write_all(s).map_err(|e| e.to_string()));
         if let Some(bytes) = bytes {
-            sweep_read(&mut t, &format!("reading a {}", what), &bytes, &|src: Source| dicom_object::from_reader(src).map(|_| ()).map_err(|e| e.to_string()));
+            // preamble, magic code, then the group length element (12 bytes) whose value counts the rest of the file meta group
+            let ds_start = 132 + 12 + u32::from_le_bytes([bytes[140], bytes[141], bytes[142], bytes[143]]) as usize;
+            sweep_read(&mut t, &format!("reading a {}", what), &bytes, Some((ds_start, false, false)), &|src: Source| dicom_object::from_reader(src).map(|_| ()).map_err(|e| e.to_string()));
+        }
+    }
+    // the deflated transfer syntax as a complete file
+    {
+        let obj = object(false);
+        let file = obj.with_meta(FileMetaTableBuilder::new().transfer_syntax("1.2.840.10008.1.2.1.99")).expect("meta");
+        let what = "complete file (Deflated Explicit VR LE)";
+        let bytes = sweep_write(&mut t, &format!("writing a {}", what), &|s: &mut Sink| file.write_all(s).map_err(|e| e.to_string()));
+        if let Some(bytes) = bytes {
+            sweep_read(&mut t, &format!("reading a {}", what), &bytes, None, &|src: Source| dicom_object::from_reader(src).map(|_| ()).map_err(|e| e.to_string()));
         }
     }
     // (3) receiving PDUs: a stream of three PDUs read through read_pdu_from_wire from a source that reports an I/O error at
@@ -201,6 +294,28 @@ fn main() {
                     Err(_) => t.fail(format!("receiving PDUs: panic when the transport failed at byte offset {} (segments of {} bytes)", k, step)),
                 }
             }
+        }
+    }
+    // (4) sending PDUs: write_pdu of PDUs of every type to a sink that fails / accepts zero bytes at offset k, for every k
+    {
+        use dicom_ul::pdu::*;
+        let pdus: Vec<(&str, Pdu)> = vec![
+            ("A-ASSOCIATE-RQ", Pdu::AssociationRQ(AssociationRQ { protocol_version: 1, calling_ae_title: "CALLING".to_string(), called_ae_title: "CALLED".to_string(),
+                application_context_name: "1.2.840.10008.3.1.1.1".to_string(),
+                presentation_contexts: vec![PresentationContextProposed { id: 1, abstract_syntax: "1.2.840.10008.1.1".to_string(), transfer_syntaxes: vec!["1.2.840.10008.1.2".to_string(), "1.2.840.10008.1.2.1".to_string()] }],
+                user_variables: vec![UserVariableItem::MaxLength(16384), UserVariableItem::ImplementationClassUID("2.25.9".to_string()), UserVariableItem::ImplementationVersionName("V".to_string())] })),
+            ("A-ASSOCIATE-AC", Pdu::AssociationAC(AssociationAC { protocol_version: 1, calling_ae_title: "CALLING".to_string(), called_ae_title: "CALLED".to_string(),
+                application_context_name: "1.2.840.10008.3.1.1.1".to_string(),
+                presentation_contexts: vec![PresentationContextResult { id: 1, reason: PresentationContextResultReason::Acceptance, transfer_syntax: "1.2.840.10008.1.2.1".to_string() }],
+                user_variables: vec![UserVariableItem::MaxLength(16384)] })),
+            ("A-ASSOCIATE-RJ", Pdu::AssociationRJ(AssociationRJ { result: AssociationRJResult::Permanent, source: AssociationRJSource::ServiceUser(AssociationRJServiceUserReason::NoReasonGiven) })),
+            ("P-DATA-TF", Pdu::PData { data: vec![PDataValue { presentation_context_id: 1, value_type: PDataValueType::Command, is_last: false, data: vec![1, 2, 3] },
+                                                PDataValue { presentation_context_id: 1, value_type: PDataValueType::Data, is_last: true, data: vec![4; 40] }] }),
+            ("A-RELEASE-RQ", Pdu::ReleaseRQ), ("A-RELEASE-RP", Pdu::ReleaseRP), ("A-ABORT", Pdu::AbortRQ { source: AbortRQSource::ServiceUser }),
+            ("unknown PDU", Pdu::Unknown { pdu_type: 0x55, data: vec![9; 11] }),
+        ];
+        for (name, pdu) in &pdus {
+            sweep_write(&mut t, &format!("sending a {} PDU (write_pdu)", name), &|s: &mut Sink| write_pdu(s, pdu).map_err(|e| e.to_string()));
         }
     }
     println!("EXHAUSTIVE unit=C34.io_failures cases={} mismatches={}", t.cases, t.bad);
